@@ -5,9 +5,9 @@ from .. import graph as G
 
 LEVEL = 'exploration'
 ENGINE = 'GRAPH'
-TECHNIQUE = 'bounded exhaustive enumeration of object graphs (every ordered tree up to a node bound over 5 node kinds x 4 opt-in class variants, plus every single back-edge) against the real remote_pickle dumps/loads'
+TECHNIQUE = 'bounded exhaustive enumeration of object graphs (every ordered tree up to a node bound over 5 node kinds x 5 opt-in class variants, plus every single back-edge) and of (state shape x class layout x position) for opt-in classes without __setstate__, against the real remote_pickle dumps/loads and the standard unpickler'
 LEVEL_TEXT = ('every graph up to the node bound is dumped and loaded with the real remote_pickle; oracle: per opt-in instance exactly one __getstate__(remote=True), restored through its __setstate__ exactly once if it has one, and the loaded graph is structurally equal (with sharing and cycles) to the original with remote states')
-LEVEL_NOTE = 'graphs beyond the node bound and class features outside the four variants (dict/tuple state, with/without __setstate__, base-class/duck-typed opt-in) are not explored'
+LEVEL_NOTE = 'graphs beyond the node bound and class features outside the listed variants (dict/tuple/falsy/None/(dict, slots) states, with/without __setstate__, __slots__ layouts, base-class/duck-typed opt-in) are not explored'
 
 RISK = ('siblings2+', 'no-setstate', 'falsy-state', 'backedge-to-optin', 'optin-in-container-under-optin', 'tuple-state', 'duck', 'plain-top-with-optin-inside')
 
